@@ -8,10 +8,10 @@ engine modes (greedy / reluctant) unless said otherwise, every row-limit guard v
 history of `Process`/`Flush` calls over any number of interleaved partitions — no bound on
 pattern size, stream length or number of partitions.
 
-Not proved (kept visible as `def … : Prop`, searched by the brute-force oracle on every run):
-`cep_complete_longest` — that no valid match is omitted and the longest one is chosen.
+Not proved (kept visible as `def … : Prop`): `reference_matcher_exact` — that the executable
+reference matcher of the oracle (`Spec.matchesFrom`) enumerates exactly `Spec.ValidMatch`.
 -/
-import SsqlVerif.Proofs.CepRun
+import SsqlVerif.Proofs.CepCompleteRun
 import SsqlVerif.Generated.Facts
 set_option autoImplicit false
 
@@ -161,21 +161,88 @@ theorem cep_partition_isolation (c : Cfg ρ) (ops : List (Op κ ρ)) (k : κ) :
       outsOf k (run c ({} : Engine κ ρ) (ops.filter (relevant k))).2 :=
   isolation_aux k ops _ _ List.nodup_nil List.nodup_nil rfl
 
-/-! ### 6. not proved -/
+/-! ### 6. completeness: nothing valid is omitted, the longest match is chosen (greedy mode) -/
 
-/-- a reported match as the oracle sees it -/
-def obsOfMatch (m : Match ρ) : Obs :=
-  { matchNo := m.matchNo, start := m.startSeq - 1, len := m.rows.length, labels := some (m.rows.map (·.2)) }
+theorem histOf_length_le (k : κ) : ∀ (ops : List (Op κ ρ)), (histOf k ops).length ≤ ops.length
+  | [] => Nat.le_refl _
+  | .row k' r :: ops => by
+    simp only [histOf]
+    have := histOf_length_le k ops
+    split <;> simp <;> omega
+  | .flush :: ops => by
+    simp only [histOf]
+    have := histOf_length_le k ops
+    simp; omega
 
-/-- **Unproved.**  Completeness and longest choice: for greedy quantifiers, with no guard in play,
-after a final `Flush` the matches reported for a partition are exactly the greedy
-leftmost-longest scan of its rows (nothing valid omitted, longest chosen, SKIP rule applied).
-Checked on every run by evaluating `Spec.holds` on the implementation's output (a search). -/
-def cep_complete_longest : Prop :=
-  ∀ (κ ρ : Type) [DecidableEq κ] (q : Query ρ), q.pat.valid → 0 ≤ q.within → q.greedy = true →
-    ∀ (ops : List (Op κ ρ)) (k : κ), (∀ op ∈ ops, op matches Op.row _ _) →
-      holds q (histOf k ops) true
-        ((outsOf k (run (cfgOf q false (ops.length + 1)) ({} : Engine κ ρ) (ops ++ [Op.flush])).2).map obsOfMatch) = "ok"
+/-- Every valid match in the sense of the spec — a classified run of consecutive rows of a partition,
+starting at row `s` — is one of the runs the engine explores, and it is accepting there. -/
+theorem valid_match_explored (q : Query ρ) (hv : q.pat.valid) (hw : 0 ≤ q.within) (lazy : Bool) (mr : Nat)
+    (H : List ρ) (s : Nat) (w : List (ρ × Sym)) (hs : 1 ≤ s)
+    (hrows : ∀ (j : Nat) (x : ρ × Sym), w[j]? = some x → H[s - 1 + j]? = some x.1)
+    (hvm : ValidMatch q w) (hmr : w.length ≤ mr + 1) :
+    ∃ r, Reached (cfgOf q lazy mr) H r ∧ r.startSeq = s ∧ r.hist = w ∧ runAccepting (cfgOf q lazy mr) r = true := by
+  obtain ⟨hne, hword, hdef, hwin⟩ := hvm
+  cases hw' : w with
+  | nil => exact absurd hw' hne
+  | cons x xs =>
+    subst hw'
+    obtain ⟨hwf, hst⟩ := compile_wf q.pat
+    obtain ⟨n, hp⟩ := (compile_accepts_iff q.pat hv _).2 hword
+    obtain ⟨hin, hcl⟩ := closure_closed (compile q.pat).tbl hwf (compile q.pat).start hst
+    have h0 : isAcceptAt (cfgOf q lazy mr).tbl 0 = true := (compile_accept_iff q.pat hv 0).2 rfl
+    have := extend_reached (cfgOf q lazy mr) hwf h0 H (x :: xs)
+      (seedRun (cfgOf q lazy mr) (q.ts x.1) s) (compile q.pat).start n hcl hin hp
+      (Or.inr ⟨rfl, hs, rfl, fun y hy => by simp at hy; subst hy; rfl⟩)
+      (by intro j y hy; simpa [seedRun] using hrows j y hy)
+      (by simpa [seedRun, cfgOf] using hdef)
+      (by
+        intro y hy
+        simp only [seedRun, cfgOf]
+        rcases List.mem_cons.1 hy with rfl | hy
+        · omega
+        · simp only [List.map_cons, withinOK, List.all_eq_true, List.mem_map, decide_eq_true_eq] at hwin
+          exact hwin _ ⟨y, hy, rfl⟩)
+      (by simpa [seedRun, cfgOf] using hmr)
+      (Or.inl (by simp))
+    obtain ⟨r, hr, hrs, hrh, hra⟩ := this
+    exact ⟨r, hr, by simpa [seedRun] using hrs, by simpa [seedRun] using hrh, hra⟩
+
+/-- **cep_complete_longest.**  Greedy quantifiers, the row-limit guard out of play (`mr` at least the
+number of ops), any stream of rows over any partitions followed by `Flush` (Stop).  For every
+partition `k` and every valid match `w` of the spec that starts at row `s` of `k`'s rows, some
+reported match `m` of `k` *decides* `s`: `m` starts at or before `s`, `s` lies before the row where
+the scan resumes after `m` (the AFTER MATCH SKIP rule), and if `m` starts at `s` itself then `m` is at
+least as long as `w`.  Hence no valid match is omitted except by the SKIP rule of an earlier reported
+match, starts are taken leftmost-first, and the match reported for a start is the longest one. -/
+theorem cep_complete_longest (q : Query ρ) (hv : q.pat.valid) (hw : 0 ≤ q.within) (mr : Nat)
+    (ops : List (Op κ ρ)) (hrowops : ∀ op ∈ ops, isRow op = true) (hmr : ops.length ≤ mr) (k : κ)
+    (s : Nat) (w : List (ρ × Sym)) (hs : 1 ≤ s)
+    (hrows : ∀ (j : Nat) (x : ρ × Sym), w[j]? = some x → (histOf k ops)[s - 1 + j]? = some x.1)
+    (hvm : ValidMatch q w) :
+    ∃ m ∈ outsOf k (run (cfgOf q false mr) ({} : Engine κ ρ) (ops ++ [Op.flush])).2,
+      m.startSeq ≤ s ∧ s < skipToM (cfgOf q false mr) m.startSeq m.rows ∧
+      (s = m.startSeq → w.length ≤ m.rows.length) := by
+  have hlen : w.length ≤ mr + 1 := by
+    have h1 := histOf_length_le k ops
+    cases hl : w.length with
+    | zero => omega
+    | succ n =>
+      obtain ⟨x, hx⟩ : ∃ x, w[n]? = some x := ⟨w[n]'(by omega), by simp [List.getElem?_eq_getElem (show n < w.length by omega)]⟩
+      have := lt_of_getElem?_some (hrows n x hx)
+      omega
+  obtain ⟨r, hr, hrs, hrh, hra⟩ := valid_match_explored q hv hw false mr (histOf k ops) s w hs hrows hvm hlen
+  obtain ⟨m, hm, h1, h2, h3⟩ := run_then_flush_covers (c := cfgOf q false mr) rfl hw k ops hrowops r hr hra
+  exact ⟨m, hm, by omega, by omega, fun he => by rw [← hrh]; exact h3 (by omega)⟩
+
+/-! ### 7. not proved -/
+
+/-- **Unproved.**  The executable reference matcher the oracle runs (`Spec.matchesFrom`, full
+classification as state key) enumerates exactly the valid matches of the declarative definition.
+Both are structural on the same pattern tree; the link is not proved, so what the oracle's
+`valid / longest / omitted` verdicts mean rests on reading `Spec.walk`. -/
+def reference_matcher_exact : Prop :=
+  ∀ (ρ : Type) (q : Query ρ) (rows : List ρ) (m : List (ρ × Sym)), q.keySyms = none →
+    (m ∈ matchesFrom q rows ↔ (ValidMatch q m ∧ m.map (·.1) = rows.take m.length))
 
 end
 
@@ -193,6 +260,24 @@ example : (outsOf 0 (run (cfgOf demoQuery false 100) {} demoOps).2).map
     (fun m => (m.matchNo, m.startSeq, m.rows.map (·.1))) = [(1, 1, [1, 3]), (2, 3, [4, 5])] := by decide
 
 example : histOf 0 demoOps = [1, 3, 4, 5] := by decide
+
+/-- `cep_complete_longest` instantiated: the valid match (rows 3,4 = positions 2,3 of partition 0) that the
+scan must not report on its own is decided by match 1 (start 1, resumes at 3) -/
+example : ∃ m ∈ outsOf 0 (run (cfgOf demoQuery false 100) ({} : Engine Nat Nat) (demoOps.take 5 ++ [Op.flush])).2,
+    m.startSeq ≤ 2 ∧ 2 < skipToM (cfgOf demoQuery false 100) m.startSeq m.rows ∧
+    (2 = m.startSeq → [((3 : Nat), (0 : Sym)), (4, 0)].length ≤ m.rows.length) :=
+  cep_complete_longest demoQuery (by simp [demoQuery, Pat.valid]) (by simp [demoQuery]) 100 (demoOps.take 5)
+    (by decide) (by decide) 0 2 [(3, 0), (4, 0)] (by decide)
+    (by
+      intro j x hx
+      match j, hx with
+      | 0, hx => simp at hx; subst hx; decide
+      | 1, hx => simp at hx; subst hx; decide
+      | n+2, hx => simp at hx)
+    { nonempty := by simp
+      word := ⟨[0], [0], rfl, rfl, rfl⟩
+      define := by decide
+      within := by decide }
 
 /-- a pending accepting run that only `Flush` reports: PATTERN (A+), rows A A, then Stop -/
 example : (outsOf 0 (run (cfgOf { demoQuery with pat := .rep (.lit 0) 1 none } false 100) {}
